@@ -24,9 +24,9 @@ CLAIMS = {
         "technique": "Lean 4 proof about the delivery loop and flatten_to's result shape; differential check of values",
     },
     "C04": {
-        "text": "Proved for all dimension lists (any rank/size): element_wise_dimensions returns the pairwise maximum of the right-aligned dimensions exactly when they are pairwise equal or 1 and refuses every other pair (C04_dims); add, sub, mul, div, axpy on incompatible shapes panic and never return values (C04_refuse, C04_refuse_ops). PARTIAL: the element formula (element at idx = f(a[proj idx], b[proj idx])) is decided on every run against specEwise: exhaustively for every ordered shape pair of rank<=3 size<=2 (quick) / rank<=4 size<=3 (thorough, 14,400 pairs) x 5 ops, randomly to rank 5." + TIE,
+        "text": "Proved in full, for all ranks and sizes: element_wise_dimensions returns the pairwise maximum of the right-aligned dimensions exactly when they are pairwise equal or 1 and refuses every other pair (C04_dims); add, sub, mul, div, axpy on incompatible shapes panic and never return values (C04_refuse, C04_refuse_ops); for well-formed operands of rank >= 1 with compatible dimensions every element-wise operation returns the tensor with the pairwise-maximum dimensions whose element at each multi-index is f of the operands' elements at the projected index (index 0 along broadcast dimensions) - C04_ewise, instantiated for add, mul, div, sub (a + b*(-1)) and axpy (x*alpha + y). The proof goes through the general sliced_op lemma (slicedOp_loop / slicedOp_single) and row-major index algebra. The ewise family compares model, specification and implementation exhaustively for every ordered shape pair of rank<=3 size<=2 (quick) / rank<=4 size<=3 (thorough, 14,400 pairs) x 5 ops, randomly to rank 5." + TIE,
         "note": COMMON_NOTE,
-        "technique": "Lean 4 proof of shape/refusal; differential check of the element formula against the index-function specification",
+        "technique": "Lean 4 proof: model ewise = index-function specification for all shapes (induction over dimension lists, omega); exhaustive differential check ties the model to the Rust code",
     },
     "C05": {
         "text": "Proved: one entry of the per-batch product is the additive-term value plus the sum over the inner index of the transposed-indexed products, for all sizes and both flags (C05_entry). PARTIAL: batching/broadcast of leading dimensions, shape derivation, rank-1 conventions and refusals are decided on every run against specMatmul over the grid (leading patterns up to 2 dims each side) x (m,k,n) x 4 transposes x 5 additive-term forms, rank-1 forms and inner mismatches." + TIE,
@@ -39,7 +39,7 @@ CLAIMS = {
         "technique": "Lean 4 proof of refusals; differential check against the direct sliding-window specification",
     },
     "C07": {
-        "text": "Proved for all shapes/values: reshape keeps the row-major values under the new dimensions iff the element count matches and every dimension is >= 1, and refuses otherwise (C07_reshape, C07_reshape_refuses); negation, scaling, powf, ln, exp, reciprocal, relu, sigmoid keep the dimensions and map every value (C07_maps, C07_neg_ring); sum(0) is the identity, sum_all the total. PARTIAL: sum(k) for k>=1 (collapsed trailing block sums, trailing unit dimension) and softmax's row normalisation are decided on every run against specSum / specSoftmax for every shape of rank<=3/4 and every k." + TIE,
+        "text": "Proved for all shapes/values: reshape keeps the row-major values under the new dimensions iff the element count matches and every dimension is >= 1, and refuses otherwise (C07_reshape, C07_reshape_refuses); negation, scaling, powf, ln, exp, reciprocal, relu, sigmoid keep the dimensions and map every value (C07_maps, C07_neg_ring); sum(k) for every 1 <= k <= rank of every well-formed array collapses the last k dimensions into one unit dimension holding the sums of the trailing blocks (C07_sum, C07_sum_dims, via the general sliced_op lemma); sum(0) is the identity, sum_all the total. PARTIAL: softmax's row normalisation (a composition of exp, sum(1) and a broadcast division, each proved) is not stated as one theorem and its 'rows sum to one' is a statement about reals, not floats; it is decided on every run against specSoftmax." + TIE,
         "note": COMMON_NOTE + " In floats a softmax row sums to one only up to rounding.",
         "technique": "Lean 4 proofs (definitional + constructor theorem); differential check of sum(k)/softmax against the specification",
     },
